@@ -54,50 +54,59 @@ def peval(name, p):
     raise AssertionError(k)
 
 
-def match(prog, name, pre, events, raised, abort=False):
+def match(prog, name, pre, events, raised, fuel=None):
     """find an oracle (list of nat) such that running prog reproduces the
     event list and the outcome; returns the oracle or None.  Set-based matcher:
-    m(p, i, files) -> {(outcome, i', files'): oracle}; files = paths that exist.
-    abort=True: an exception unrelated to the guards ended the run - the events
-    must be a run cut right before its next file event (Model: fuel = Some n)."""
+    m(p, i, world) -> {(outcome, i', world'): oracle}; world = (paths that
+    exist, remaining fuel).  fuel=k: an exception unrelated to the guards strikes
+    when the (k+1)-th file event is about to happen (Model: fuel = Some k)."""
     n = len(events)
     sys.setrecursionlimit(10000)
 
-    def m(p, i, fs):
+    def m(p, i, w):
         k = p[0]
-        if abort and i == n and k in ('Guard', 'Create', 'Append', 'Delete', 'Rename'):
-            return {('X', i, fs): []}
+        fs, fu = w
+        if k in ('Guard', 'Create', 'Append', 'Delete', 'Rename', 'Probe'):
+            if fu == 0:
+                return {('X', i, (fs, None)): []}
+            if fu is not None:
+                fu -= 1
         if k == 'Skip':
-            return {('N', i, fs): []}
+            return {('N', i, w): []}
         if k == 'Return':
-            return {('R', i, fs): []}
+            return {('R', i, w): []}
         if k == 'Raise':
-            return {('X', i, fs): []}
+            return {('X', i, w): []}
         if k == 'Guard':
             q = peval(name, p[1])
             if i < n and events[i] == 'G ' + q:
-                return {(('X' if q in fs else 'N'), i + 1, fs): []}
+                return {(('X' if q in fs else 'N'), i + 1, (fs, fu)): []}
+            return {}
+        if k == 'Probe':
+            q = peval(name, p[1])
+            if i < n and events[i] == 'G ' + q:
+                return {('N', i + 1, (fs, fu)): []}
             return {}
         if k in ('Create', 'Append'):
             q = peval(name, p[1])
             tag = 'C ' if k == 'Create' else 'A '
             if i < n and events[i] == tag + q:
-                return {('N', i + 1, fs | frozenset([q])): []}
+                return {('N', i + 1, (fs | frozenset([q]), fu)): []}
             return {}
         if k == 'Delete':
             q = peval(name, p[1])
             if i < n and events[i] == 'D ' + q:
-                return {('N', i + 1, fs - frozenset([q])): []}
+                return {('N', i + 1, (fs - frozenset([q]), fu)): []}
             return {}
         if k == 'Rename':
             a, b = peval(name, p[1]), peval(name, p[2])
             if i < n and events[i] == f'M {a} -> {b}':
                 f2 = (fs - frozenset([a])) | frozenset([b]) if a in fs else fs - frozenset([b])
-                return {('N', i + 1, f2): []}
+                return {('N', i + 1, (f2, fu)): []}
             return {}
         if k == 'Seq':
             out = {}
-            for (o, j, c), orc in m(p[1], i, fs).items():
+            for (o, j, c), orc in m(p[1], i, w).items():
                 if o != 'N':
                     out.setdefault((o, j, c), orc)
                 else:
@@ -106,36 +115,41 @@ def match(prog, name, pre, events, raised, abort=False):
             return out
         if k == 'Try':
             out = {}
-            for (o, j, c), orc in m(p[1], i, fs).items():
-                if o != 'X':
+            for (o, j, c), orc in m(p[1], i, w).items():
+                if o == 'R':
                     out.setdefault((o, j, c), orc)
+                elif o == 'N':
+                    # left normally (oracle 0) or hit by a late exception (oracle 1)
+                    out.setdefault((o, j, c), orc + [0])
+                    for key, orc2 in m(p[2], j, c).items():
+                        out.setdefault(key, orc + [1] + orc2)
                 else:
                     for key, orc2 in m(p[2], j, c).items():
                         out.setdefault(key, orc + orc2)
             return out
         if k == 'Finally':
             out = {}
-            for (o, j, c), orc in m(p[1], i, fs).items():
+            for (o, j, c), orc in m(p[1], i, w).items():
                 for (o2, j2, c2), orc2 in m(p[2], j, c).items():
                     out.setdefault(((o if o2 == 'N' else o2), j2, c2), orc + orc2)
             return out
         if k == 'If':
             out = {}
-            for key, orc in m(p[1], i, fs).items():
+            for key, orc in m(p[1], i, w).items():
                 out.setdefault(key, [1] + orc)
-            for key, orc in m(p[2], i, fs).items():
+            for key, orc in m(p[2], i, w).items():
                 out.setdefault(key, [0] + orc)
             return out
         if k == 'Call':
             out = {}
-            for (o, j, c), orc in m(p[1], i, fs).items():
+            for (o, j, c), orc in m(p[1], i, w).items():
                 out.setdefault((('N' if o == 'R' else o), j, c), orc)
             return out
         if k == 'Loop':
             # states after exactly t iterations, all Normal
-            out = {('N', i, fs): [0]}
-            frontier = {(i, fs): []}
-            seen = {(i, fs)}
+            out = {('N', i, w): [0]}
+            frontier = {(i, w): []}
+            seen = {(i, w)}
             t = 0
             while frontier and t < 400:
                 t += 1
@@ -154,11 +168,21 @@ def match(prog, name, pre, events, raised, abort=False):
             return out
         raise AssertionError(k)
 
-    res = m(prog, 0, frozenset(pre))
+    res = m(prog, 0, (frozenset(pre), fuel))
     for (o, j, c), orc in res.items():
         if j == n and ((o == 'X') == bool(raised)):
             return orc
     return None
+
+
+def match_struck(prog, name, pre, events, raised):
+    """an exception that is not a refusal ended (or diverted) the run: find the
+    file event before which it struck; returns (oracle, fuel) or (None, None)"""
+    for k in range(len(events), -1, -1):
+        orc = match(prog, name, pre, events, raised, fuel=k)
+        if orc is not None:
+            return orc, k
+    return None, None
 
 
 PEXP_OPS = ('PName', 'PIfEnds', 'PSuffix', 'PSibling', 'PWithSuffix')
@@ -166,7 +190,7 @@ PEXP_OPS = ('PName', 'PIfEnds', 'PSuffix', 'PSibling', 'PWithSuffix')
 
 def all_pexps(p):
     k = p[0]
-    if k in ('Guard', 'Create', 'Append', 'Delete'):
+    if k in ('Guard', 'Create', 'Append', 'Delete', 'Probe'):
         return [p[1]]
     if k == 'Rename':
         return [p[1], p[2]]
@@ -659,8 +683,8 @@ def main(ctx):
         fu = 'None'
         if orc is None and r['raised'] and 'already exists' not in r['exc']:
             # an exception that is not a refusal (a mesh the writer cannot handle ...)
-            orc = match(prog, c['name'], set(c['pre']), ev, r['raised'], abort=True)
-            fu = f'(Some {len(ev)})'
+            orc, k = match_struck(prog, c['name'], set(c['pre']), ev, r['raised'])
+            fu = f'(Some {k})'
             ctx.count('run cut by an unrelated exception')
         if orc is None:
             unmatched.append(c['id'])
